@@ -1101,7 +1101,11 @@ func (c *Component) handleAAAResponse(event events.Event) {
 		"allowed", resp.Allowed)
 
 	sess.mu.Lock()
-	if sess.pendingAuthRequestID != resp.RequestID {
+	// The session was found without its lock. By now it may have been torn
+	// down (PADT, dead peer, a reject) — terminate() does not clear the pending
+	// id — and an accept applied to it would send CHAP-Success / start the
+	// NCPs and take pool addresses for a session that is in no index any more.
+	if sess.pendingAuthRequestID != resp.RequestID || sess.Phase == ppp.PhaseTerminate {
 		sess.mu.Unlock()
 		return
 	}
